@@ -176,6 +176,9 @@ def duplicate_case(sh, i):
 def run(sh):
     n = 300 if sh.tier == 'quick' else 50000
     engine_line.run_profile(sh, 'C16', 'values', n, MONITORS, nontrivial)
+    # sinks whose receive callback writes the received part down by a fee (the sink booked the value at receipt)
+    engine_line.run_profile(sh, 'C16', 'values', n // 4, MONITORS, nontrivial, prefix='sink_fees_',
+                            overrides={'p_sink_fee': 0.9}, tag='sinkfee')
     for i in sh.share(n // 3):
         duplicate_case(sh, i)
 
